@@ -10,8 +10,10 @@ use crate::pool::{self, Rng};
 use crate::refcodec::Packet as R;
 use crate::report::{Opts, Report, Tier, Violation};
 
-const VALID: [&str; 10] = ["a", "a/b", "+", "#", "a/+/b", "a/#", "/", "+/+", "$SYS/#", "a//b"];
-const INVALID: [&str; 9] = ["a/#/b", "a+", "+a", "a/b#", "#/a", "a/+b", "##", "a/#/", ""];
+// (shared-subscription style filters are ordinary filters as far as section 4.7 goes: every level
+// has to be well-formed, the group name included)
+const VALID: [&str; 13] = ["a", "a/b", "+", "#", "a/+/b", "a/#", "/", "+/+", "$SYS/#", "a//b", "$share/grp/a", "$share/grp/", "$share/g/+/#"];
+const INVALID: [&str; 13] = ["a/#/b", "a+", "+a", "a/b#", "#/a", "a/+b", "##", "a/#/", "", "$share/grp#/a", "$share/+x/a", "$share/#/a", "$share/a+/#"];
 
 pub async fn run_case(role: Role, unsub: bool, filters: &[String]) -> Vec<(String, String)> {
     let app = App::new("c18c");
